@@ -619,11 +619,17 @@ bool ReadEnumViewFromTextStream(View *view, Stream *stream) {
     // TODO(bolms): Fix the static_cast<ValueType> for signed ValueType.
     // TODO(bolms): Should values between 2**63 and 2**64-1 actually be
     // allowed in the text format when ValueType is signed?
-    return view->TryToWrite(static_cast<typename View::ValueType>(value));
+    const auto enum_value = static_cast<typename View::ValueType>(value);
+    // Reject numbers that do not fit in the enum's underlying type, instead of
+    // silently truncating them.
+    if (static_cast</**/ ::std::uint64_t>(enum_value) != value) return false;
+    return view->TryToWrite(enum_value);
   } else if (token[0] == '-') {
     ::std::int64_t value;
     if (!DecodeInteger(token, &value)) return false;
-    return view->TryToWrite(static_cast<typename View::ValueType>(value));
+    const auto enum_value = static_cast<typename View::ValueType>(value);
+    if (static_cast</**/ ::std::int64_t>(enum_value) != value) return false;
+    return view->TryToWrite(enum_value);
   } else {
     typename View::ValueType value;
     if (!TryToGetEnumFromName(token.c_str(), &value)) return false;
